@@ -96,6 +96,12 @@ def check_tok(case) -> Res:
     return canon_check(x, [wrap, joiner, list(seq)])
 
 
+def check_ctor(case) -> Res:
+    wrap, head, args = case
+    x = WRAPS[wrap].replace("{s}", head + ",".join(args) + "]")
+    return canon_check(x, [wrap, head, list(args)])
+
+
 def _esc(s: str) -> str:
     return s.replace("\\", "\\\\").replace('"', '\\"').replace("\n", "\\n").replace("\t", "\\t")
 
@@ -117,6 +123,11 @@ def run(ctx):
     L = 3 if ctx.quick else 4
     ctx.coverage["bounds"] = {"token_seq_len": L, "alphabet": T, "wrappings": sorted(WRAPS), "joiners": ["", " "]}
     ctx.explore("tokens", Product(sorted(WRAPS), ["", " "], Sequences(T, L, 1)), check_tok, chunk=3000)
+    # bracket contents spread over several lines (line break, indent, comment between ANY two tokens), over a small pattern alphabet
+    CA = ["BAR", "1", "true", "", "x.y", "-2", '"s t"', "10", "1e5", "null", "A<b>"]
+    ctx.explore("tokens.constructors", Product(["assign", "list"], ["FOO[", "NEVER[", "a[", "RANGE["], Sequences(CA, 3, 1)), check_ctor, chunk=2000)
+    TP = ["a", '"s t"', "$V", "1", "∧", "REQ", "→", "§", "SELF", ",", "x<y>", "[", "]"]
+    ctx.explore("tokens.multiline", Product(["list"], ["\n  ", " // c\n  ", "\n"], Sequences(TP, 4 if ctx.quick else 5, 2)), check_tok, chunk=3000)
     try:
         from . import c01_model
     except ImportError:
@@ -128,7 +139,9 @@ def run(ctx):
 def replay(ctx, rp):
     sub = rp.get("subcheck")
     case = rp["case"]
-    if sub == "tokens":
+    if sub == "tokens.constructors":
+        return check_ctor((case[0], case[1], tuple(case[2]))).violations
+    if sub in ("tokens", "tokens.multiline"):
         return check_tok((case[0], case[1], tuple(case[2]))).violations
     if sub == "quoted_strings":
         return check_qstr((case[0], tuple(case[1]))).violations
